@@ -195,6 +195,9 @@ def check_levels(case, acc):
                 rest = [l for l in lv if l != ref]
                 if labs != ["Intercept"] + [f"{call}[{l}]" for l in rest] or not all(np.array_equal(X[:, j + 1], ind(l)) for j, l in enumerate(rest)):
                     problems.append(("reference-honoured", f"'{call}' with lv={lv}: columns {labs}"))
+                labs, X = design(f"y ~ 0 + {call}")  # full coding: every level, in the declared order (the reference plays no role)
+                if labs != [f"{call}[{l}]" for l in lv] or not all(np.array_equal(X[:, j], ind(l)) for j, l in enumerate(lv)):
+                    problems.append(("levels-order", f"'0 + {call}' with lv={lv}: columns {labs} are not the indicators in the declared order"))
             for call in (f"S(v, '{ref}', levels=lv)", f"S(v, omit='{ref}', levels=lv)", f"C(v, Sum('{ref}'), levels=lv)"):
                 labs, X = design(f"y ~ {call}")
                 rest = [l for l in lv if l != ref]
